@@ -13,6 +13,7 @@ DRIVERS = [
     (r"(TriggerHandler\.trace_call|TriggerHandler\.__process_call_backs|FunctionLocation\.at_location|TriggerHandler\.__actions_for_location)/(SIG|POST/store-invariant|POST/tracing)", "c01_trace_call_escapes.py"),
     (r"thread_local\.py:ThreadLocal\.", "c15_threadlocal.py"),
     (r"TriggerContext\.evaluate_expression/PRE/call:eval/", "c10_eval_scope.py"),
+    (r"^__init__\.py:start/", "c19_app_root.py"),
 ]
 
 # driver -> properties whose thorough tier runs it natively on the working tree (CPython cross-check of the clauses)
@@ -29,5 +30,6 @@ DRIVER_PROPS = {
     "c15_threadlocal.py": ["C15"],
     "c16_log_ids.py": ["C16"],
     "c19_env_config.py": ["C19"],
+    "c19_app_root.py": ["C19"],
     "c20_plugin_switch.py": ["C20"],
 }
